@@ -45,7 +45,7 @@ func init() {
 		ID:    "C06",
 		Level: "exploration",
 		Rule: "cases: CLI runs over 3-8 files in which some or all files cannot match: (A) every pattern is anchored on an identifier that occurs in no file, (B) a matching non-idempotent patch with unmatched files between matched ones, " +
-			"(C) package-clause or import guard fails although the code pattern occurs, (D) near-miss-only files; files in 12 layouts (gofmt-like, spaces for tabs, CRLF, no final newline, extra blank lines, odd spacing, header+build tag+block comment, unsorted imports, UTF-8 byte order mark, BOM+CRLF, a line longer than 64 KiB, //line directive with trailing white space) and standard-library files; " +
+			"(C) package-clause or import guard fails although the code pattern occurs (near-miss guards: p vs p_test, path prefix, named vs unnamed), (D) near-miss-only files, (E) B plus files that fail, (F) the pattern occurs only where its replacement is not admissible; files in 12 layouts (gofmt-like, spaces for tabs, CRLF, no final newline, extra blank lines, odd spacing, header+build tag+block comment, unsorted imports, UTF-8 byte order mark, BOM+CRLF, a line longer than 64 KiB, //line directive with trailing white space) and standard-library files; " +
 			"modes {in place, --diff, --print-only} x -v x --skip-import-processing x 1-2 patch files; every 8th run under strace -f. Monitors: digest (bytes, inode, mtime, ctime, mode) of every unmatched file before/after, stdout/stderr/exit oracle, " +
 			"strace event log free of open-for-write/write/rename/unlink/chmod/utimensat on unmatched files, and Apply(src)==src through the library. non-trivial = unmatched file is not gofmt-clean or sits in a run with a matching file; distinct = (layout, mode+flags, reason for no match, position in run).",
 		Assumptions: []string{"'cannot match' is established without the reference model: anchor identifier absent from the file's text, guard on a package name / import path the file does not have, or an extra literal argument"},
@@ -65,7 +65,7 @@ func runC06(ctx *core.Ctx, idx int) *core.Result {
 	r := ctx.Rand("c06", idx)
 	g := gen.NewG(r)
 	g.Comment = r.Intn(2) == 0
-	kind := []string{"A-anchor-absent", "B-mixed", "C-guard-fails", "D-near-miss", "E-mixed-with-failures"}[idx%5]
+	kind := []string{"A-anchor-absent", "B-mixed", "C-guard-fails", "D-near-miss", "E-mixed-with-failures", "F-only-inadmissible-sites"}[idx%6]
 	withFailures := kind == "E-mixed-with-failures"
 	if withFailures {
 		// like B, plus a file that does not parse and a file on which a change matches but cannot be built:
@@ -108,6 +108,13 @@ func runC06(ctx *core.Ctx, idx int) *core.Result {
 			patches = append(patches, "# guarded\n@@\nvar x expression\n@@\n-package "+pp[0]+"\n+package renamed\n\n-bump(x)\n+bump(x + 1)\n")
 			guardFilePkg = pp[1]
 		}
+	case "F-only-inadmissible-sites":
+		// the pattern occurs, but only where the replacement cannot stand (a selector or a call for a declared name, a
+		// field name, a label): no site is rewritten, so no change applies to the file
+		patches = append(patches, "# qualify\n@@\n@@\n-tgtName\n+pkg.NewName\n")
+		if r.Intn(2) == 0 {
+			patches = append(patches, "# package too\n@@\n@@\n-package p\n+package q\n\n-tgtOther\n+mk().Other\n")
+		}
 	case "D-near-miss":
 		patches = append(patches, "# near\n@@\nvar x expression\n@@\n-bump(x, 1)\n+bump(x + 1)\n")
 	}
@@ -139,6 +146,10 @@ func runC06(ctx *core.Ctx, idx int) *core.Result {
 			}
 		case "C-guard-fails":
 			plants = append(plants, gen.Plant{Kind: "expr", Text: "bump(" + g.Atom() + ")"})
+		case "F-only-inadmissible-sites":
+			slots := []string{"func tgtName() {}", "func (r *R) tgtName() int { return 0 }", "type S1 struct {\n\ttgtName int\n}", "type I1 interface {\n\ttgtName() error\n}",
+				"func f1() {\ntgtName:\n\tfor {\n\t\tbreak tgtName\n\t}\n}", "func f3(tgtName int) {}", "const tgtName = 3", "type tgtName struct{}", "func tgtOther() {}", "var tgtOther int"}
+			plants = append(plants, gen.Plant{Kind: "decl", Text: slots[r.Intn(len(slots))]})
 		case "D-near-miss":
 			plants = append(plants, gen.Plant{Kind: "expr", Text: []string{"bump(a)", "bump(a, 2)", "bump(a, 1, 1)", "bumps(a, 1)"}[r.Intn(4)]})
 		}
